@@ -428,6 +428,16 @@ class World:
             await self.hass.async_stop(force=True)
         except Exception:  # noqa: BLE001
             pass
+        # Everything this world created must die *inside* this world: pyscript stops triggers from __del__ / weakref
+        # finalizers through class-level state (Function.hass, DecoratorManager.hass), so an object of this case that is
+        # collected during the next case would unregister the next case's services and subscriptions.
+        try:
+            for _ in range(3):
+                await self.settle(max_iter=2000)
+                gc.collect()
+            await self.settle(max_iter=2000)
+        except Exception:  # noqa: BLE001
+            pass
         try:
             await self._cm.__aexit__(None, None, None)
         except Exception:  # noqa: BLE001
